@@ -39,6 +39,29 @@ Theorem c12_noncomplying_call_rejected :
 Proof. exact c12_noncomplying_b. Qed.
 Print Assumptions c12_noncomplying_call_rejected.
 
+(** A call that violates the SHARD limit is rejected for every dynamic-limit configuration: whatever filter
+    GetLimitFilter returns (none, the same, another, a contradicting one), with or without
+    ShouldContinueOnError, and whatever that callback answers ("continue" = report-only mode included). *)
+Theorem c12_shard_violation_rejected_whatever_the_dynamic_limit :
+  forall shard dyn cb cont t c o,
+    op_wfb (mk_handle (Some shard) dyn cb cont) t o = true ->
+    ~ Forall (event_confined t shard) (fst (run no_limits t c o)) ->
+    snd (run (mk_handle (Some shard) dyn cb cont) t c o) <> Proceeds
+    /\ (single_statement o -> fst (run (mk_handle (Some shard) dyn cb cont) t c o) = [])
+    /\ ~ In ECommit (fst (run (mk_handle (Some shard) dyn cb cont) t c o)).
+Proof. exact shard_violation_rejected. Qed.
+Print Assumptions c12_shard_violation_rejected_whatever_the_dynamic_limit.
+
+(** The decision functions take both limits and the callback's answer; the shard check alone decides "no". *)
+Theorem c12_shard_check_is_not_overridable :
+  forall shard dyn cb cont,
+    (forall f, check_filter_against_limit f shard = false ->
+               check_filter_limits (mk_handle (Some shard) dyn cb cont) f = false)
+    /\ (forall cvs, check_column_values_against_limit cvs shard = false ->
+                   check_values_limits (mk_handle (Some shard) dyn cb cont) cvs = false).
+Proof. exact shard_check_not_overridable. Qed.
+Print Assumptions c12_shard_check_is_not_overridable.
+
 (** Batched fetches: for every set of concurrent callers and every way the Go scheduler groups the ones
     that pass their check into invocations of the batch function, every combined statement is confined. *)
 Theorem c12_batched_statements_confined :
